@@ -413,7 +413,7 @@ def codec_cases(ck, rng):
         elif kind == "psl":
             body = bytes([0xD4 if req else 0xD5, 4 if req else 5]) + bytes(rng.randrange(256) for _ in range(rng.choice([0, 1, 2, 3, 3, 4])))
         elif kind == "atr":
-            body = bytes([0xD4 if req else 0xD5, 0 if req else 1]) + bytes(rng.randrange(256) for _ in range(rng.choice([14, 15, 16, 20, 40])))
+            body = bytes([0xD4 if req else 0xD5, 0 if req else 1]) + bytes(rng.randrange(256) for _ in range(rng.choice([0, 1, 13, 14, 15, 16, 20, 40])))
         else:
             body = bytes([rng.choice([0xD4, 0xD5, 0x00]), rng.randrange(16)]) + bytes(rng.randrange(256) for _ in range(rng.randrange(0, 4)))
         if len(body) + 1 > 255:
@@ -425,14 +425,9 @@ def codec_cases(ck, rng):
         variants.append(bytes(m))
         variants.append(f[:rng.randrange(2 if brty == "106A" else 1, len(f) + 1)])
         variants.append(f + b"\x00")
+        variants.append(f[:rng.randrange(0, 3)])      # empty frame, lone start or length byte
         for v in variants:
-            if len(v) < 1:
-                continue                      # empty frame: F11 (property C07)
             b = v[(1 if brty == "106A" else 0):]
-            if len(b) >= 3 and b[1:3] in (b"\xD4\x00", b"\xD5\x01") and len(b) - 1 < (16 if req else 17):
-                continue                      # short ATR: F11 (property C07)
-            if brty == "106A" and len(v) < 2:
-                continue
             side = tgt if req else ini
             try:
                 obj = side.decode_frame(bytearray(v))
